@@ -53,7 +53,7 @@ def gen_term(rng, depth, need):
 
 def count_objs(toks):
     # upper bound on object count: number of constructor words
-    return sum(1 for t in toks if t in ("raw", "safe", "named", "pair", "sim", "simw"))
+    return sum(1 for t in toks if t in ("raw", "safe", "named", "pair", "sim", "simw", "simwc"))
 
 
 def raw_positions(toks):
@@ -155,6 +155,27 @@ def cases(tier, rng):
                     out = [q for q in out if len(q) <= 2] + [rng.choice(out) for _ in range(40)]
                 for q in out:
                     cs.append(mk(t, q, "pair-under-wrapper"))
+    # a stream connection whose CARRIER is itself a state-aware wrapper that gets closed on its own, before or after (implementation only:
+    # the stream connection owns the stream's resources, not the carrier's; what happens to the carrier changes nothing of it)
+    for outer in ([], ["named", "0"], ["safe", "0"], ["named", "0", "safe", "0"]):
+        for carrier in (["safe", "0", "raw", "0", "0"], ["named", "0", "raw", "1", "0"], ["named", "0", "safe", "0", "raw", "0", "0"]):
+            for stream in (["safe", "1", "raw", "0", "0"], ["named", "1", "raw", "0", "1"], ["raw", "0", "0"]):
+                t = outer + ["simwc"] + carrier + stream
+                nc = sum(1 for x in carrier if x in ("raw", "safe", "named"))
+                ns = sum(1 for x in stream if x in ("raw", "safe", "named"))
+                cobj = nc - 1                         # the carrier's outermost object
+                w = nc + ns                           # the stream connection
+                top = w + len(outer) // 2             # the outermost object
+                seqs = [[("close", cobj), ("closed", w), ("closed", top), ("close", top), ("closed", top), ("close", top)],
+                        [("closed", top), ("close", cobj), ("close", cobj), ("close", top), ("closed", w)],
+                        [("close", top), ("close", cobj), ("closed", top), ("close", top)],
+                        [("close", cobj), ("close", w), ("closed", top), ("close", top)]]
+                for q in (seqs if thorough else seqs[:2] + [rng.choice(seqs[2:])]):
+                    c = mk(t, q, "carrier-closed-on-its-own")
+                    c["model"] = False
+                    c["key"] = c["line"]
+                    c["tags"]["carrier"] = [cobj, w, top]
+                    cs.append(c)
     for _ in range(20000 if thorough else 2500):
         d = rng.range(1, 6)
         t, _ = gen_term(rng, d, 1 if rng.chance(1, 2) else rng.below(4))
@@ -197,6 +218,9 @@ def oracle(case, impl):
                 out.append(("repeat-error", "repeated Close returned an error: " + case["line"][:300]))
             closed_objs.add(k)
         elif o == "closed":
+            cw = case["tags"].get("carrier")
+            if cw and k >= cw[1] and not any(x >= cw[1] for x in closed_objs) and r != 0:
+                out.append(("status-true-before-close", "Closed() of a stream connection (or a wrapper around it) true before it was closed - only its carrier was: " + case["line"][:300]))
             if k in closed_objs and r != 1:
                 out.append(("status-false-after-close", "Closed() false after Close: " + case["line"][:300]))
             if not closed_objs and r != 0:
